@@ -255,6 +255,30 @@ if not isinstance(data, dict):
 return data
 '''
 UTIL_SEND = 'connection.write(json.dumps(data))'
+WRITE_TO_CONN = '''
+resp: dict[str, Any] = {self.output_key: output}
+send(self.server, resp)
+return len(output)
+'''
+# the exchange in mypy/dmypy/client.py request(): one frame out, frames in until "final"
+CLIENT_REQUEST_TRY = '''
+try:
+    with IPCClient(name, timeout) as client:
+        send(client, args)
+
+        final = False
+        while not final:
+            response = receive(client)
+            final = bool(response.pop("final", False))
+            stdout = response.pop("stdout", None)
+            if stdout:
+                sys.stdout.write(stdout)
+            stderr = response.pop("stderr", None)
+            if stderr:
+                sys.stderr.write(stderr)
+except (OSError, IPCException) as err:
+    return {"error": str(err)}
+'''
 
 
 def same(stmts: list[ast.stmt], template: str, what: str) -> None:
@@ -298,6 +322,15 @@ def gen_frame() -> str:
         raise Unsupported("dmypy_util.receive/send not found")
     same(fns["receive"].body, UTIL_RECEIVE, "dmypy_util.receive")
     same(fns["send"].body, UTIL_SEND, "dmypy_util.send")
+    same(find_method(find_class(util, "WriteToConn"), "write").body, WRITE_TO_CONN, "dmypy_util.WriteToConn.write")
+    cl = ast.parse(vlib.read_repo("mypy/dmypy/client.py"))
+    req = [n for n in cl.body if isinstance(n, ast.FunctionDef) and n.name == "request"]
+    if not req:
+        raise Unsupported("dmypy/client.py request() not found")
+    trys = [n for n in req[0].body if isinstance(n, ast.Try)]
+    if len(trys) != 1:
+        raise Unsupported("dmypy/client.py request(): expected one try block")
+    same(trys, CLIENT_REQUEST_TRY, "dmypy/client.py request() exchange")
     return "\n\n".join(out) + "\n"
 
 
